@@ -695,7 +695,8 @@ fn run_ws_case(m: &mut Model, ops: &[Op], max_txs: usize, auto_merge: bool, max_
 // (so the verdict does not depend on the `HashMap` order the candidates are visited in): a "small" delta (0.05 along
 // the workspace's own axis) is accepted, a "big" one (3.0) is rejected by `reject_big` (non-strict, magnitude limit
 // 1.0) and by `strict` (the configuration of the repo's own test `test_auto_merge_validation_rejects_candidate`:
-// default `ValidationConfig`, one centroid along the committer's axis); `accept_all` (non-strict, no effective limit)
+// default `ValidationConfig`, one centroid along the first committer's axis: the committer's own delta must lie on that
+// axis, the merged delta within cosine 0.8 of it and the added part within magnitude 1.0); `accept_all` (non-strict, no effective limit)
 // accepts both; `empty` is the default empty codebook (validator not consulted).
 // Property oracle (implementation only; Lean: rejected_candidate_contributes_nothing, failed_candidate_ops_not_in_block,
 // failed_candidate_writes_not_in_store): after every commit the new block holds exactly the operations of the
@@ -812,7 +813,7 @@ fn run_vm_case(m: &mut Model, validator: &str, auto_merge: bool, steps: &[VmStep
                         if cands.is_empty() { "-".to_string() } else { cands.iter().map(|k| {
                             let (cx, cd, cbig) = &wss[k];
                             let ops = cx.operations();
-                            format!("{k}/1/{}/{cd}/{}", u8::from(match validator { "strict" => size == 1 && d == first_committer_dir && *cbig == 0, "reject_big" => *cbig != 2, _ => true }), if ops.is_empty() { "-".to_string() } else { ops.iter().map(show_real_tx).collect::<Vec<_>>().join(",") })
+                            format!("{k}/1/{}/{cd}/{}", u8::from(match validator { "strict" => { let (sc, sk) = ([0.05f64, 1.0, 3.0][size as usize % 3], [0.05f64, 1.0, 3.0][*cbig as usize % 3]); d == first_committer_dir.max(1) && sk <= 1.0 && sc / (sc * sc + sk * sk).sqrt() >= 0.8 } "reject_big" => *cbig != 2, _ => true }), if ops.is_empty() { "-".to_string() } else { ops.iter().map(show_real_tx).collect::<Vec<_>>().join(",") })
                         }).collect::<Vec<_>>().join(";") }
                     );
                     let model = m.ask(&line);
